@@ -127,6 +127,8 @@ pub fn analyze_for_vulnerability(
     //Parse the file into a the ast
     let source_unit = solang_parser::parse(&file_contents, file_number).unwrap().0;
 
+    #[cfg(solstat_verif)]
+    crate::verif_shim::yield_point("analyze_for: parsed");
     let locations = match vulnerability {
         Vulnerability::FloatingPragma => floating_pragma_vulnerability(source_unit),
         Vulnerability::UnsafeERC20Operation => unsafe_erc20_operation_vulnerability(source_unit),
@@ -136,6 +138,8 @@ pub fn analyze_for_vulnerability(
         Vulnerability::DivideBeforeMultiply => divide_before_multiply_vulnerability(source_unit),
     };
 
+    #[cfg(solstat_verif)]
+    crate::verif_shim::yield_point("analyze_for: detected");
     for loc in locations {
         line_numbers.insert(utils::get_line_number(loc.start(), file_contents));
     }
